@@ -204,14 +204,14 @@ def mpf_add (s t : Mpf) (prec : Int := 0) (rnd : Rnd := .d) (sub : Bool := false
       let bc : Int := bitcount man
       normalize ssign' man t.exp bc (if prec ≠ 0 then prec else bc) rnd
   else
-    let t := if sub then mpf_neg t else t
+    let t' := if sub then mpf_neg t else t
     if s.man = 0 then
       if s.exp ≠ 0 then
-        if s = t ∨ t.man ≠ 0 ∨ t.exp = 0 then s else fnan
+        if s = t' ∨ t.man ≠ 0 ∨ t.exp = 0 then s else fnan
       else if t.man ≠ 0 then
         normalize1 tsign t.man t.exp t.bc (if prec ≠ 0 then prec else t.bc) rnd
-      else t
-    else if t.exp ≠ 0 then t
+      else t'
+    else if t.exp ≠ 0 then t'
     else normalize1 s.sign s.man s.exp s.bc (if prec ≠ 0 then prec else s.bc) rnd
 
 def mpf_sub (s t : Mpf) (prec : Int := 0) (rnd : Rnd := .d) : Mpf :=
@@ -358,7 +358,7 @@ def from_rational (p q : Int) (prec : Int) (rnd : Rnd := .d) : Except Err Mpf :=
 /-- `mpf_mod(s, t, prec, rnd)`; a zero divisor raises ZeroDivisionError (from Python's `%`). -/
 def mpf_mod (s t : Mpf) (prec : Int) (rnd : Rnd := .d) : Except Err Mpf :=
   if isSpecial s ∨ isSpecial t then .ok fnan
-  else if s.sign = t.sign ∧ t.exp > s.exp + s.bc then .ok s
+  else if s.sign = t.sign ∧ t.exp > s.exp + s.bc then .ok (mpf_pos s prec rnd)
   else if t.man = 1 ∧ s.exp > t.exp + t.bc then .ok fzero
   else
     let base := min s.exp t.exp
@@ -548,9 +548,8 @@ def HASH_BITS : Nat := 61
 def HASH_INF : Int := 314159
 def HASH_NAN : Int := 0   -- sys.hash_info.nan (0 on CPython ≥ 3.10)
 
-/-- `mpf_hash(s)` (the Python ≥ 3.2 branch); the value returned by the function, before
-CPython maps a `__hash__` result of -1 to -2. -/
-def mpf_hash (s : Mpf) : Int :=
+/-- `mpf_hash(s)` (the Python ≥ 3.2 branch) up to, but not including, the final `if h == -1: h = -2`. -/
+def mpf_hash_raw (s : Mpf) : Int :=
   if s.man = 0 ∧ s = fnan then HASH_NAN
   else if s.man = 0 ∧ s = finf then HASH_INF
   else if s.man = 0 ∧ s = fninf then -HASH_INF
@@ -560,6 +559,11 @@ def mpf_hash (s : Mpf) : Int :=
                    else HASH_BITS - 1 - ((-1 - s.exp) % HASH_BITS).toNat
     let h := (h <<< e) % HASH_MODULUS
     if s.sign ≠ 0 then -(h : Int) else h
+
+/-- `mpf_hash(s)` -/
+def mpf_hash (s : Mpf) : Int :=
+  let h := mpf_hash_raw s
+  if h = -1 then -2 else h
 
 /-- `to_fixed(s, prec)` -/
 def to_fixed (s : Mpf) (prec : Int) : Int :=
